@@ -108,22 +108,31 @@ fn main() {
     }
     if args[1] == "mod" {
         let src = std::fs::read_to_string(&args[2]).expect("read");
-        let (mut ctx, host) = boa_sim::js::new_default_context();
-        let d = |c: &boa_engine::Context, w: &str| println!("{w}: {:?}", boa_engine::verif::vm_depths(c).stack);
-        let m = boa_engine::Module::parse(boa_engine::Source::from_bytes(src.as_str()), None, &mut ctx).expect("parse");
-        d(&ctx, "parsed");
-        let p = m.load(&mut ctx);
-        d(&ctx, "load");
-        ctx.run_jobs().expect("jobs");
-        d(&ctx, "load jobs");
-        println!("{:?}", p.state());
-        m.link(&mut ctx).expect("link");
-        d(&ctx, "link");
-        let p = m.evaluate(&mut ctx).expect("evaluate");
-        d(&ctx, "evaluate");
-        ctx.run_jobs().expect("jobs");
-        d(&ctx, "evaluate jobs");
-        println!("{:?} {:?}", p.state(), host.trace.take());
+        let upto: u32 = std::env::var("UPTO").ok().and_then(|s| s.parse().ok()).unwrap_or(9);
+        {
+            let (mut ctx, host) = boa_sim::js::new_default_context();
+            let d = |c: &boa_engine::Context, w: &str| println!("{w}: {:?}", boa_engine::verif::vm_depths(c).stack);
+            let m = boa_engine::Module::parse(boa_engine::Source::from_bytes(src.as_str()), None, &mut ctx).expect("parse");
+            d(&ctx, "parsed");
+            if upto >= 1 {
+                let p = m.load(&mut ctx);
+                ctx.run_jobs().expect("jobs");
+                println!("load {:?}", p.state());
+            }
+            if upto >= 2 {
+                m.link(&mut ctx).expect("link");
+                d(&ctx, "link");
+            }
+            if upto >= 3 {
+                let p = m.evaluate(&mut ctx).expect("evaluate");
+                ctx.run_jobs().expect("jobs");
+                println!("{:?} {:?}", p.state(), host.trace.take());
+            }
+        }
+        boa_gc::verif::collect_now();
+        println!("after drop + collect: {:?}", boa_gc::verif::stats());
+        boa_gc::verif::collect_now();
+        println!("after second collect: {:?}", boa_gc::verif::stats());
         return;
     }
     harness::install_panic_hook();
